@@ -30,7 +30,8 @@ PER_KEY = 3
 def _fail(res, key, what, inp=None, observed=None):
     """record at most PER_KEY failures per stable key so that one defect cannot crowd out the others"""
     if sum(1 for f in res.failures if f["key"] == key) < PER_KEY:
-        res.fail(key, what, inp, observed)
+        # the key travels with the input so that replay() judges exactly this failure and not another one on the same input
+        res.fail(key, what, dict(inp, failed_key=key) if isinstance(inp, dict) else inp, observed)
 
 
 def _jsonish(x):
@@ -227,7 +228,7 @@ def run_collection(res, member_recipes, thr_code, via, tmpdir, count=True):
 
 # --------------------------------------------------------------------------------------------- scope
 def dataset_recipes(tier, rng):
-    lens_quick = {2: [1, 2, 5], 3: [1, 3, 8], 4: [2, 4, 7], 5: [1, 6], 6: [2, 8]}
+    lens_quick = {2: [1, 5], 3: [2, 8], 4: [3, 7], 5: [1, 6], 6: [2, 4]}
     out = []
     for gi, gen in enumerate(U.GENS):
         for g in range(2, 7):
@@ -253,7 +254,7 @@ def dataset_recipes(tier, rng):
         }
         for name, lengths in styles.items():
             for meta in ("permaze", "collected", "none", "empty"):
-                if tier != "thorough" and meta in ("none", "empty") and name not in ("mixed", "len1", "len2", "longest-last"):
+                if tier != "thorough" and meta != "permaze" and name not in ("mixed", "len1", "len2", "longest-last"):
                     continue
                 out.append({"kind": "hand", "name": f"hand-{name}", "grid_n": g, "lengths": lengths, "seed": int(rng.integers(0, 10 ** 6)), "meta": meta})
     # at / around the default threshold of 100 with a small grid
@@ -363,8 +364,13 @@ def replay(check, inp):
             run_case(res, inp["recipe"], (case[0], case[1]), tmpdir, count=False)
     finally:
         shutil.rmtree(tmpdir, ignore_errors=True)
-    for f in res.failures:
+    want = inp.get("failed_key") if isinstance(inp, dict) else None
+    mine = [f for f in res.failures if want is None or f["key"] == want]
+    for f in mine:
         print("  still failing:", f["key"], f["what"])
+    for f in res.failures:
+        if f not in mine:
+            print("  (another check fails on this input:", f["key"] + ")")
     for e in res.errors:
         print("  replay error:", e)
-    return not res.failures and not res.errors
+    return not mine and not res.errors
